@@ -48,6 +48,7 @@ def atoms(M):
         "loop-n": [A("n", "2"), A(p + "r[i]", "7", [("i", "0", "n")])],
         "yield": [["Y", p, M, "<t>", "tid"]],
         "call": [A("u", "<func>f(<state>y)"), A(p, "u")],
+        "callkw": [A("u", "<state>y + 2"), A("v", "<func>k(<t>, z=u)"), A(p, "v")],
         "fresh": [A("temp", p + " + 3"), A(p, "temp")],
         "swap": [A("u", p), A("v", "u * 2"), A(p, "v - u + 1")],
         # non-disjoint / shared writes
@@ -62,14 +63,17 @@ NONDISJOINT = {"shared", "t+=dt"}
 CUTS = {"fail-late"}
 
 
-def method(M, names):
+def method(M, names, extra_phase=False):
     at = atoms(M)
     body = []
     for n in names:
         body.extend(at[n])
     init = [A("<p>%s" % M, "<state>y"), A("<p>%sr" % M, "<builtin>array(3)"),
             A("<p>%sr[i]" % M, "i", [("i", "0", "3")]), A("<p>s", "0")]
-    return prog.build_dag([("init", init, "main"), ("main", body, "main")], "init")
+    phases = [("init", init, "main"), ("main", body, "main")]
+    if extra_phase:
+        phases.append(("rescue_" + M, [A("<p>%s" % M, "0"), A("u", "<p>%s + 1" % M)], "main"))
+    return prog.build_dag(phases, "init")
 
 
 PREDICATES = {
@@ -296,7 +300,11 @@ def f_f(x):
     return 3 * x + 1
 
 
-FUNCS = {"<func>f": f_f}
+def f_k(t, z):
+    return 10 * t + z
+
+
+FUNCS = {"<func>f": f_f, "<func>k": f_k}
 
 
 def run_persistent(dag, y, steps=3):
@@ -359,6 +367,36 @@ def check_pair(na, nb, pred_name, semantic=True):
     return None, rho_key
 
 
+def check_phase_sets():
+    """methods with differing phase sets: the fusion contains the union, extra phases intact"""
+    from dagrt.transform import fuse_two_dags
+    out = []
+    for ea, eb in ((True, False), (False, True), (True, True)):
+        a, b = method("a", ["p+=dt"], ea), method("b", ["u=y+1;p=u"], eb)
+        try:
+            f = fuse_two_dags(a, b)
+        except Exception as ex:
+            out.append(("exception(%s)" % type(ex).__name__, "C16/exception:phase-sets %s/%s" % (ea, eb),
+                        {"phase_sets": [ea, eb]}, "fusing methods with different phase sets raised %s" % ex))
+            continue
+        want = set(a.phases) | set(b.phases)
+        if set(f.phases) != want:
+            out.append(("phase-lost", "C16/phase-lost:extra phase in %s" % ("first" if ea and not eb else
+                                                                            "second" if eb and not ea else "both"),
+                        {"phase_sets": [ea, eb]},
+                        "fused method has phases %s, expected %s" % (sorted(f.phases), sorted(want))))
+            continue
+        for src in (a, b):
+            for name, ph in src.phases.items():
+                if name.startswith("rescue"):
+                    got = f.phases[name]
+                    if sorted(str(x) for x in got.statements) != sorted(str(x) for x in ph.statements) or \
+                            got.next_phase != ph.next_phase:
+                        out.append(("phase-lost", "C16/phase-lost:extra phase altered", {"phase_sets": [ea, eb]},
+                                    "phase %s was altered by the fusion" % name))
+    return out
+
+
 def check_mismatch():
     """mismatching initial phase / default successor must raise ValueError"""
     from dagrt.transform import fuse_two_dags
@@ -385,7 +423,7 @@ def bodies(k, names=None):
         yield from itertools.product(names, repeat=n)
 
 
-CORE = ["u=y+1;p=u", "if", "loop", "tmp-loop", "yield", "fresh", "shared"]
+CORE = ["u=y+1;p=u", "if", "loop", "tmp-loop", "yield", "fresh", "shared", "callkw"]
 
 
 def bounds(tier):
@@ -447,8 +485,8 @@ def shrink(na, nb, pred_name, sub):
 
 def run_shard(desc, acc):
     if desc["part"] == "mismatch":
-        acc.evaluations += 2
-        for sub, sig, w, d in check_mismatch():
+        acc.evaluations += 5
+        for sub, sig, w, d in check_mismatch() + check_phase_sets():
             acc.violation(sub, sig, w, d)
         return
     for i, (na, nb) in enumerate(pairs(desc["tier"])):
@@ -477,8 +515,8 @@ def run_shard(desc, acc):
 
 
 def replay(witness):
-    if "mismatch" in witness:
-        return [{"sub": s, "sig": g, "witness": w, "detail": d} for s, g, w, d in check_mismatch()
+    if "mismatch" in witness or "phase_sets" in witness:
+        return [{"sub": s, "sig": g, "witness": w, "detail": d} for s, g, w, d in check_mismatch() + check_phase_sets()
                 if w == witness]
     na, nb, pn = witness["A"], witness["B"], witness["predicate"]
     r, _ = check_pair(na, nb, pn)
